@@ -202,32 +202,7 @@ def run(ctx):
     if seq != [("self", "remove"), ("self.replacement", "clear"), ("self.replacement", "push_back")]:
         r.violate("MutationsInner::replace", f"MutationsInner::replace does {seq}; expected remove(), replacement.clear(), replacement.push_back(chunk)", None)
 
-    # ------------------------------------------------------------------ R07.4
-    r = ctx.rule("R07.4", "edits are not lost: write-implies-invalidate (C01 R01.5), removal of an attribute removes every duplicate (C16 R16.2), the element's own end-tag edits are applied before user end-tag handlers run", "E-MIR", floor=3)
-    sm.clause_eq_case_insensitive(r, mir)
-    ra = mir.fn("Attributes::remove_attribute")
-    bulk = [callee_key(t) for bi, t in ra.calls(r"retain|extract_if")]
-    single = [bi for bi, t in ra.calls(r"Vec::remove$|swap_remove$")]
-    in_loop = [bi for bi in single if any(bi in ra.reachable_blocks(s) for s in ra.succs()[bi])]
-    r.inst("remove_attribute|all-duplicates", sample={"bulk": bulk, "single": len(single)})
-    if not bulk and (not single or len(in_loop) != len(single)):
-        r.violate("remove_attribute|all-duplicates", "remove_attribute removes at most one matching attribute: a duplicate of the removed name survives in the output", ra.loc())
-    sa = mir.fn("Attributes::set_attribute")
-    r.inst("set_attribute|keeps-others")
-    if list(sa.calls(r"Vec::clear$|Vec::truncate$|retain")):
-        r.violate("set_attribute|keeps-others", "set_attribute drops other attributes of the tag", sa.loc())
-    ie = mir.fn("Element::into_end_tag_handler")
-    ins = list(ie.calls(r"Vec::insert$"))
-    psh = list(ie.calls(r"Vec::push$"))
-    r.inst("into_end_tag_handler|internal-first", sample={"insert": [ie.describe_operand(t["args"][1]) for bi, t in ins], "push": len(psh)})
-    if len(ins) != 1 or not ie.describe_operand(ins[0][1]["args"][1]).startswith("const 0") or psh:
-        r.violate("into_end_tag_handler|internal-first", "the internal handler that transfers the element's end-tag edits (append/after/remove/rename) is no longer placed first: it assigns the end tag's mutations wholesale and would overwrite what user end-tag handlers did", ie.loc())
-    cl = [g for g in mir.fns if g.key.startswith("Element::into_end_tag_handler::{closure")]
-    w = [g for g in cl if "EndTag.mutations" in sm.fields_written(g)]
-    c2 = [g for g in cl if list(g.calls(r"EndTag::set_name_raw$"))]
-    r.inst("into_end_tag_handler|transfers")
-    if not w or not c2:
-        r.violate("into_end_tag_handler|transfers", "into_end_tag_handler no longer transfers both the modified end tag name and the end-tag mutations", ie.loc())
+    rule_edits_not_lost(ctx, mir)
 
     # ------------------------------------------------------------------ R07.5
     r = ctx.rule("R07.5", "removed content: tokens are emitted only while emission is enabled; handle_tag recomputes emission from should_emit_content after every tag and re-enables it before an end tag that stops removal", "E-MIR", floor=3)
@@ -272,6 +247,14 @@ def run(ctx):
     from .c03 import rule_self_closing_ns
     rule_self_closing_ns(ctx, mir, rid="R07.7")
 
+    # ------------------------------------------------------------------ R07.8 (shared with C16 R16.1)
+    # a modified start tag is re-serialised from the parsed attribute list: every attribute the tokenizer saw must be in it
+    from .c16 import rule_attr_typestate
+    from ..smgraph import Graph as _G7, automaton as _a7
+    from ..smimpl import index as _i7
+    _aut7 = _a7()
+    rule_attr_typestate(ctx, _i7(), _aut7, _G7(_aut7), mir, rid="R07.8")
+
     ctx.not_decided += ["that the composition of arbitrary operation scripts equals the reference edit (run-time)"]
     return ("API-to-mutation mapping read from the expanded syntax tree (28 token methods cross-checked as siblings and against the documented table, "
             "9 Element operations), serialisation order of mutated tokens, transfer of element-level end-tag edits, and the emission gate for removed content.")
@@ -301,3 +284,33 @@ def clause_vm_told_before_reenable(r, mir):
     r.inst("handle_tag|vm-told-before-stop-test", sample={"told_blocks": len(told), "stop_tests": len(sr)})
     if not sr or not told or any(ht.can_reach_without(0, {b}, told) for b in sr):
         r.violate("handle_tag|vm-told-before-stop-test", "Dispatcher::handle_tag asks should_stop_removing_element_content() before the selector VM was told about the tag (adjust_capture_flags_for_tag_lexeme / the hint flag): in lexing mode the element is still open at that point, emission is not re-enabled for its end tag, and removed content or the end tag leak or vanish depending on which observers are registered", ht.loc())
+
+
+def rule_edits_not_lost(ctx, mir, rid="R07.4"):
+    # ------------------------------------------------------------------ R07.4
+    r = ctx.rule(rid, "edits are not lost: write-implies-invalidate (C01 R01.5), removal of an attribute removes every duplicate (C16 R16.2), the element's own end-tag edits are applied before user end-tag handlers run", "E-MIR", floor=3)
+    sm.clause_eq_case_insensitive(r, mir)
+    ra = mir.fn("Attributes::remove_attribute")
+    bulk = [callee_key(t) for bi, t in ra.calls(r"retain|extract_if")]
+    single = [bi for bi, t in ra.calls(r"Vec::remove$|swap_remove$")]
+    in_loop = [bi for bi in single if any(bi in ra.reachable_blocks(s) for s in ra.succs()[bi])]
+    r.inst("remove_attribute|all-duplicates", sample={"bulk": bulk, "single": len(single)})
+    if not bulk and (not single or len(in_loop) != len(single)):
+        r.violate("remove_attribute|all-duplicates", "remove_attribute removes at most one matching attribute: a duplicate of the removed name survives in the output", ra.loc())
+    sa = mir.fn("Attributes::set_attribute")
+    r.inst("set_attribute|keeps-others")
+    if list(sa.calls(r"Vec::clear$|Vec::truncate$|retain")):
+        r.violate("set_attribute|keeps-others", "set_attribute drops other attributes of the tag", sa.loc())
+    ie = mir.fn("Element::into_end_tag_handler")
+    ins = list(ie.calls(r"Vec::insert$"))
+    psh = list(ie.calls(r"Vec::push$"))
+    r.inst("into_end_tag_handler|internal-first", sample={"insert": [ie.describe_operand(t["args"][1]) for bi, t in ins], "push": len(psh)})
+    if len(ins) != 1 or not ie.describe_operand(ins[0][1]["args"][1]).startswith("const 0") or psh:
+        r.violate("into_end_tag_handler|internal-first", "the internal handler that transfers the element's end-tag edits (append/after/remove/rename) is no longer placed first: it assigns the end tag's mutations wholesale and would overwrite what user end-tag handlers did", ie.loc())
+    cl = [g for g in mir.fns if g.key.startswith("Element::into_end_tag_handler::{closure")]
+    w = [g for g in cl if "EndTag.mutations" in sm.fields_written(g)]
+    c2 = [g for g in cl if list(g.calls(r"EndTag::set_name_raw$"))]
+    r.inst("into_end_tag_handler|transfers")
+    if not w or not c2:
+        r.violate("into_end_tag_handler|transfers", "into_end_tag_handler no longer transfers both the modified end tag name and the end-tag mutations", ie.loc())
+
